@@ -1,26 +1,9 @@
 """C20 — assertions survive encoding and malformed input is rejected safely (DESIGN.md §2 C20)."""
-import base64, re
 
 
 def classify(case):
-    """the one recorded defect: Decoder.Decode panics (makeslice: cap out of range) on a negative body-length header
-    whose magnitude exceeds the length of the header text. Keyed on exactly that: a stream case whose failing call
-    panicked and whose next header block declares such a body-length."""
-    i = case.get("input") or {}
-    if i.get("kind") != "stream":
-        return None
-    results = (case.get("observed") or {}).get("results") or []
-    if not results or results[-1].get("kind") != "panic" or any(r.get("kind") == "timeout" for r in results):
-        return None
-    try:
-        stream = base64.b64decode(i.get("stream") or "")
-    except Exception:
-        return None
-    # skip the assertions that were decoded before the panic: look at every header block of the stream
-    for block in stream.split(b"\n\n"):
-        m = re.search(rb"(?m)^body-length: (-\d+)$", block)
-        if m and len(block) + 2 + int(m.group(1)) < 0:
-            return "stream-negative-body-length"
+    """no recorded defect: the negative body-length panic of Decoder.Decode found by this check is repaired in /repo
+    (commit 94ffaa1, KNOWN_FINDINGS `fixed:`), so every panic, timeout or failed round trip is a violation."""
     return None
 
 
@@ -48,7 +31,7 @@ SPEC = dict(
           "and parse. decode: mutated encodings and random bytes through Decode. stream: 1-3 encoded assertions written by "
           "the real Encoder (also mutated / truncated) read by NewDecoderStressed with buffer 8..4096 and limits chosen "
           "around the actual component sizes, Decode called until the first non-assertion; plus 12 fixed streams with "
-          "odd body-length values. Every call runs under panic recovery and a 20 s time bound. Non-trivial = accepted "
+          "odd body-length values (negative, signed, zero-padded, overflowing, above the maximum: regression cases of the repaired panic). Every call runs under panic recovery and a 20 s time bound. Non-trivial = accepted "
           "parse / successful round trip / at least one assertion decoded from a stream."),
     exhaustive=dict(quick=True, thorough=True),
     trusted_base=[
@@ -58,7 +41,7 @@ SPEC = dict(
         "assemble's per-type checks, signing and RSA are not modelled: the model stops where Decode calls assemble; an accepted assertion must carry the model's headers/body/signature, a rejection by assemble is allowed",
     ],
     assumptions=[
-        "PARTIAL: proved for all inputs on the model: header text round trip for every normalised tree of any depth (C20_roundtrip, C20_roundtrip_bytes), line split/join inverses, totality of parseHeaders (no out-of-range index, termination within 2*lines+1 steps: C20_no_panic), readUntil/Decode size bounds (C20_read_until_bound, C20_limits), and that the only panic of Decoder.Decode is the negative body-length one. NOT proved, only monitored on the implementation: the content/signature/body splitting of a whole encoded assertion, identical revision/format (derived from headers by assemble), absence of hangs of the real decoder (20 s bound per call).",
+        "PARTIAL: proved for all inputs on the model: header text round trip for every normalised tree of any depth (C20_roundtrip, C20_roundtrip_bytes), line split/join inverses, totality of parseHeaders (no out-of-range index, termination within 2*lines+1 steps: C20_no_panic), readUntil/Decode size bounds (C20_read_until_bound, C20_limits), and that Decoder.Decode never panics on any stream (C20_stream_never_panics, C20_stream_loop_never_panics; the negative body-length panic this check found is repaired in /repo commit 94ffaa1). NOT proved, only monitored on the implementation: the content/signature/body splitting of a whole encoded assertion, identical revision/format (derived from headers by assemble), absence of hangs of the real decoder (20 s bound per call).",
         "normalised header tree = strings, non-empty lists, non-empty maps with valid distinct keys (what parseHeaders can produce); assembleAndSign also accepts trees outside this form, whose text form drops empty lists/maps or cannot be parsed (C20_roundtrip_any_tree_refuted) - treated as outside the property's `valid assertion`",
         "Go maps are represented by their key-sorted entry list",
         "the C20_limits bound for the header text is the readUntil bound max(initial buffer, limit); with the production constants (4096, 128 KiB, 2 MiB, 128 KiB) that is the limit itself",
